@@ -164,6 +164,9 @@ class DNSClient(Service, discriminator="dns-client"):
         :param session_id: The Session ID the payload is to originate from. Optional.
         :return: True if successful, False otherwise.
         """
+        if not super().receive(payload=payload, session_id=session_id, **kwargs):
+            return False
+
         # The payload should be a DNS packet
         if not isinstance(payload, DNSPacket):
             self.sys_log.warning(f"{self.name}: Payload is not a DNSPacket")
